@@ -34,4 +34,16 @@ def run(ctx):
     ctx.add_bounded("the consensus command completes on every family of trees (shared with C16; includes supports equal to the threshold)", "see C16", r3["cases"], r3["cases"], not raised)
     for p in raised[:4]:
         ctx.fail("C12.bounded.completes[%s]" % p[:90], p, {"problem": p}, True)
-    ctx.samples.append({"bounded_cases": r["cases"] + r2["cases"] + r3["cases"]})
+    r4 = BC.run_c12_deep_trees(ctx.tier, ctx.seed)
+    bad = [x for x in r4 if x["exception"] or x["problems"]]
+    ctx.add_bounded("the commands complete on linear trees (every clone the only child of the previous one)", "300 and 1100 clones, one sample, CPython's default recursion limit; map, consensus (both weightings), topology report with archive",
+                    len(r4), len(r4), not bad, "1100 clones: recorded finding K02")
+    for x in bad:
+        if x["exception"]:
+            ctx.fail("C12.bounded.deep-tree|clones=%d|%s|%s" % (x["clones"], x["command"], x["exception"]),
+                     "the %s command on a linear tree of %d clones raised %s: %s" % (x["command"], x["clones"], x["exception"], x.get("text", "")),
+                     {"defect": 1.0, "clones": x["clones"], "command": x["command"], "exception": x["exception"],
+                      "replay": "bounded.commands.run_c12_deep_trees(depths=(%d,))" % x["clones"]}, True)
+        else:
+            ctx.fail("C12.bounded.deep-tree-table|clones=%d|%s" % (x["clones"], x["command"]), "; ".join(x["problems"]), {"problems": x["problems"]}, True)
+    ctx.samples.append({"bounded_cases": r["cases"] + r2["cases"] + r3["cases"] + len(r4)})
